@@ -207,6 +207,26 @@ def run(tier, seed):
             jobs.append(([C.UCG_BIN, "build", arg], cwd, None))
             meta.append((pi, proot, files, entry, back, cyc, cname, arg, pos))
             stats["cwds"][cname] = stats["cwds"].get(cname, 0) + 1
+    # 3. imports written directly as the value of a top-level let (the form the type checker resolves before evaluation), through
+    #    two levels and with the same file name in two directories
+    for si, (stexts, sentry, swant) in enumerate(STATIC_PROJECTS):
+        proot = os.path.join(root, "s%d" % si)
+        for n, t in stexts.items():
+            os.makedirs(os.path.dirname(os.path.join(proot, n)), exist_ok=True)
+            open(os.path.join(proot, n), "w").write(t)
+        stats["projects"] += 1
+        stats["positions"]["top_level_let"] = stats["positions"].get("top_level_let", 0) + 1
+        ep = os.path.join(proot, sentry)
+        edir = os.path.dirname(ep)
+        other = os.path.join(root, "selsewhere%d" % si)
+        os.makedirs(other, exist_ok=True)
+        os.makedirs(os.path.join(edir, "cwdsub"), exist_ok=True)
+        for cname, cwd, arg in [("file_dir", edir, os.path.basename(ep)), ("project_root", proot, sentry),
+                                ("subdir_of_file_dir", os.path.join(edir, "cwdsub"), "../" + os.path.basename(ep)),
+                                ("elsewhere_abs", other, ep), ("elsewhere_rel", other, os.path.relpath(ep, other))]:
+            jobs.append(([C.UCG_BIN, "build", arg], cwd, None))
+            meta.append((si, proot, {n: {} for n in stexts}, sentry, swant, False, cname, arg, "__static__"))
+            stats["cwds"][cname] = stats["cwds"].get(cname, 0) + 1
     results = C.run_many(jobs)
     real = []
     for (pi, proot, files, entry, back, cyc, cname, arg, pos), (rc, out, err) in zip(meta, results):
@@ -234,7 +254,7 @@ def run(tier, seed):
         except (OSError, ValueError, KeyError) as e:
             real.append(dict(base, why="no artifact: %s" % e))
             continue
-        want = expected_total(files, entry)
+        want = back if pos == "__static__" else expected_total(files, entry)
         if got != want:
             real.append(dict(base, why="imports resolved to other files: total %r, expected %r" % (got, want)))
             continue
@@ -266,6 +286,25 @@ def run(tier, seed):
     elif broken:
         ck.violation({"kind": "proof obligation or translator no longer checks", "broken": broken, "theorems": THEOREMS}, nofail=True)
     return ck.finish()
+
+
+# projects whose imports are the direct value of a top-level let, two levels deep, with one file name in two directories
+STATIC_PROJECTS = [
+    # the entry file has the same name as the file imported at depth two from another directory: no cycle
+    ({"c.ucg": 'let b = import "sub/b.ucg";\nlet total = b.total + 1;\nout json {total = total};\n',
+      "sub/b.ucg": 'let c = import "c.ucg";\nlet total = c.v + 10;\n',
+      "sub/c.ucg": 'let v = 5;\n'}, "c.ucg", 16),
+    # two files of one name export a field of different types; the nested import means the one next to its importer
+    ({"main.ucg": 'let b = import "sub/b.ucg";\nlet total = b.name + "x";\nout json {total = total};\n',
+      "sub/b.ucg": 'let c = import "c.ucg";\nlet name = c.name + "";\n',
+      "sub/c.ucg": 'let name = "s";\n',
+      "c.ucg": 'let name = 1;\n'}, "main.ucg", "sx"),
+    ({"app/main.ucg": 'let b = import "../lib/b.ucg";\nlet c = import "c.ucg";\nlet total = b.total + c.n;\nout json {total = total};\n',
+      "app/c.ucg": 'let n = 100;\n',
+      "lib/b.ucg": 'let c = import "./c.ucg";\nlet d = import "../lib/deep/c.ucg";\nlet total = c.n.k + d.n;\n',
+      "lib/c.ucg": 'let n = {k = 7};\n',
+      "lib/deep/c.ucg": 'let e = import "../../app/c.ucg";\nlet n = e.n + 1;\n'}, "app/main.ucg", 208),
+]
 
 
 def replay(path):
